@@ -59,6 +59,23 @@ def run(rep, scratch, tier, seed, replay=None):
         cases = [(l.split()[1], l.split()[2], l.split()[3], l.split()[5:]) for l in lines if l.startswith("DAMAGE")]
     ilines, mlines, rc, err = filescommon.run_files(scratch, lines, "c15")
     if rc != 0:
+        # the process that opened the files died (a fault the Go runtime cannot recover, e.g. a read
+        # from memory bbolt has unmapped): run the cases one per process to name the one
+        ds_blocks, cur = {}, None
+        for l in lines:
+            if l.startswith("DATASET "):
+                cur = l.split()[1]
+                ds_blocks[cur] = []
+            if cur and (l.startswith("DATASET ") or l.startswith("R ")):
+                ds_blocks[cur].append(l)
+        for l in [x for x in lines if x.startswith("DAMAGE ")]:
+            one = ds_blocks[l.split()[2]] + [l]
+            il1, _, rc1, err1 = filescommon.run_files(scratch, one, "c15one", model=False)
+            if rc1 != 0:
+                rep.violation("monitor:crash", "valid index with defects %s, opened %s: the process opening it died (exit %s): %s" % (" ".join(l.split()[5:]), l.split()[3], rc1, err1.strip().splitlines()[0][:200] if err1.strip() else ""),
+                              {"lines": one[:400], "stderr_head": err1[:1500]})
+                rep.coverage.update({"evaluations": len(cases), "distinct_nontrivial": 0, "failures": 1, "rule": "aborted: the harness process died", "samples": [l]})
+                return
         raise core.FrameworkError("harness exited with %d: %s" % (rc, err[-2000:]))
     impl = {l.split()[1]: l.split()[2:] for l in ilines if l.startswith("DAMAGE ")}
     model = {l.split()[1]: l.split()[2] for l in mlines if l.startswith("DAMAGE ")}
